@@ -1,5 +1,6 @@
 """C10 - extension-field towers compute in the quotient rings they denote (DESIGN.md section 4, C10)."""
 import collections
+import os
 import random
 
 from vlib import core, gen_fpx
@@ -216,7 +217,116 @@ def run(tier, seed):
         events, _ = conf.run(cfg, cfg, "fpx", DRV, cases, SPEC, nontrivial=nontrivial, min_per_shard=100,
                              tlc_timeout=2400, driver_timeout=1200)
         _count_ops(ev, cfg, events)
+    if os.environ.get("C10_EXT") == "1":
+        ext_sweep(ev, conf, rng, tier)
     return conf.finish()
+
+
+# ----------------------------------------------------------------------------
+# field-size sweep (C10_EXT): the towers of the k = 8, 16, 18, 24, 48 families at their own primes
+# ----------------------------------------------------------------------------
+# build -> what the unchanged tree offers there (probe of 2026-09: fp_param id, residue classes, pairing curve)
+SWEEP = collections.OrderedDict([
+    ("fp315", "BLS24-P315, k = 24 (fp24 over fp8/fp4), p = 1 mod 8, u^2 = -13"),
+    ("fp330", "KSS16-P330, k = 16 (fp16 over fp8/fp4), p = 5 mod 8, u^2 = -2"),
+    ("fp354", "KSS18-P354, k = 18 (fp18 over fp9/fp3, D-type cubic twist), p = 5 mod 8"),
+    ("fp544", "GMT8-P544, k = 8 (fp8 over fp4), p = 1 mod 8, M-type twist; xi is a cube: no fp6/fp12/fp24"),
+    ("fp575", "BLS48-P575, k = 48 (fp48 over fp24), p = 3 mod 8, u^2 = -1"),
+    ("fp317", "BLS24-P317, k = 24, p = 3 mod 8"),
+])
+SWEEP_QUICK = ["fp315"]
+EXT_TOP = {"fp315": [24], "fp317": [24], "fp330": [16], "fp354": [18], "fp544": [8], "fp575": [48]}
+
+
+def ext_cases(cfg, lst, anyp, ops, rng, tier):
+    quick = tier == "quick"
+    lines, towers, admitted, tail = [], [], {}, []
+    sels = []
+    if anyp[0]:
+        sels.append(("A", anyp[1]))
+    # the primes by themselves (no curve installed): every id in thorough, none in quick when a curve exists
+    for (pid, p, q, c, xi, x3) in lst:
+        if not (quick and anyp[0]):
+            sels.append(("P%d" % pid, pid))
+    byid = {i: (p, q, c, xi, x3) for (i, p, q, c, xi, x3) in lst}
+    for (sel, pid) in sels:
+        p, q, c, xi, x3 = byid[pid]
+        adm = gen_fpx.admitted_levels(p, q, c, xi, x3)
+        admitted["%s(id %d)" % (sel, pid)] = adm
+        G = gen_fpx.Gen(sel, p, 64, rng, ops, tw=anyp[3] if sel == "A" else 0, ext=True)
+        main = sel == "A" or not anyp[0]
+        top = EXT_TOP.get(cfg, [])
+        used = []
+        for n in adm:
+            if quick:
+                # one small slice: the family's own tower levels only
+                if not (n in top or (n in (4, 8) and 24 in top)):
+                    continue
+                sc, heavy = (0.25 if n >= 16 else 0.2), n < 16
+            elif n in top:
+                sc, heavy = ((0.4 if main else 0.12) if n <= 24 else 0.12), (main and n <= 24)
+            elif n >= 48:
+                # degrees 48 / 54 are driven in full on the 256-bit pairing prime; here only fp48 beside the k = 24 tower
+                if not (main and cfg == "fp315" and n == 48):
+                    continue
+                sc, heavy = 0.08, False
+            elif main:
+                sc, heavy = (0.2 if n in (4, 8, 16, 24) else 0.12), n <= 8
+            elif n in (4, 8):
+                # the prime alone beside its curve: the levels whose Frobenius looks at the installed curve
+                sc, heavy = 0.08, False
+            else:
+                continue
+            sc *= float(os.environ.get("C10_EXT_SCALE", "1"))
+            gen_fpx.gen_level(G, n, tier, scale=sc, heavy=heavy)
+            used.append(n)
+        lines += G.L
+        tail += G.tail
+        towers += gen_fpx.tower_lines(sel, used)
+    lines = lines + towers
+    rng.shuffle(lines)
+    blk = max(1, len(lines) // 48)
+    lines = [ln for i in range(0, len(lines), blk) for ln in sorted(lines[i:i + blk], key=lambda x: x.split(" ", 1)[0])]
+    return lines + tail, admitted
+
+
+def ext_sweep(ev, conf, rng, tier):
+    quick = tier == "quick"
+    only = os.environ.get("C10_EXT_ONLY")
+    cfgs = SWEEP_QUICK if quick else list(SWEEP)
+    if only:
+        cfgs = only.split(",")
+    ev.cov.setdefault("sweep", {})
+    core.run_models(ev, [("SparseHi", "SparseHi", "p = 3: fp24_mul_dxs, fp16_mul_dxs, fp48_mul_dxs as coded (both operand shapes, chosen by the "
+                          "zero test on b) = schoolbook product of the quotient ring, for ALL operands a and ALL sparse b, any non-residue; "
+                          "outside the precondition the programs differ (control)", True)] +
+                    ([] if quick else [("SparseHi", "SparseHi_p5", "p = 5: fp24_mul_dxs, fp16_mul_dxs over Z/5", True)]), parallel=2)
+    ev.assumptions.append(
+        "field-size sweep: the towers are driven with the build's own pairing-friendly curve installed by "
+        "ep_param_set_any_pairf (selector A: the twist types the library chooses decide the sparse shapes of fp12/fp18) and, in "
+        "the thorough tier, with every selectable prime alone (fp_param_set); a build that fails, offers no prime or whose curve "
+        "selection fails on the unchanged tree is recorded under cov.sweep as skipped, never as a violation; compressed "
+        "squarings / decompression of degrees 24, 48, 54 are not driven")
+    for cfg in cfgs:
+        try:
+            lst, ops = probe(cfg)
+            exe = core.cc_harness(cfg, "fpx", DRV)
+            rc, out = core.sh([exe, "--list"], timeout=120)
+            anyp = gen_fpx.parse_any(out)
+        except core.InfraError as ex:
+            ev.cov["sweep"][cfg] = dict(skipped="build / probe failed: " + str(ex)[-300:])
+            core.log("C10 sweep %s skipped: %s" % (cfg, str(ex)[-200:]))
+            continue
+        cases, admitted = ext_cases(cfg, lst, anyp, ops, rng, tier)
+        samp = int(os.environ.get("C10_EXT_SAMPLE", "1"))       # development aid: every n-th case only
+        if samp > 1:
+            cases = [c for j, c in enumerate(cases) if j % samp == 0 or " tower " in c]
+        ev.cov["sweep"][cfg] = dict(what=SWEEP.get(cfg, ""), primes=[i for (i, *_r) in lst], towers=admitted,
+                                    curve=("ep_param_set_any_pairf: fp id %d, k = %d, ep2 twist %d, ep3 twist %d" % anyp[1:]) if anyp[0]
+                                    else "skipped: ep_param_set_any_pairf fails on the unchanged tree in this build (primes driven alone)")
+        events, _ = conf.run("sweep-" + cfg, cfg, "fpx", DRV, cases, SPEC, nontrivial=nontrivial, min_per_shard=60,
+                             tlc_timeout=3000, driver_timeout=1500, shards=int(os.environ.get("C10_EXT_SHARDS", core.NCPU)))
+        _count_ops(ev, "sweep-" + cfg, events)
 
 
 def replay(path, seed):
